@@ -136,9 +136,23 @@ func (ex *Exec) asInt64(x value) int64 {
 // concretize forks over the feasible values of s (model-guided).
 func (ex *Exec) concretize(s sym) int64 {
 	for n := 0; n < ex.eng.Cfg.MaxConcretize; n++ {
-		v, ok := ex.anyValue(s.t)
-		if !ok {
-			panic(pathEnd{"assume", "concretize: no value"})
+		// the candidate value is part of the decision vector: a replayed
+		// prefix must see the same candidate, not one from a newer model
+		var v uint64
+		if ex.cursor < len(ex.prefix) {
+			v = uint64(ex.prefix[ex.cursor])
+			ex.cursor++
+			ex.recordDecision(int(v))
+			if ex.cursor == len(ex.prefix) {
+				ex.modelValid = ex.model != nil
+			}
+		} else {
+			var ok bool
+			v, ok = ex.anyValue(s.t)
+			if !ok {
+				panic(pathEnd{"assume", "concretize: no value"})
+			}
+			ex.recordDecision(int(v))
 		}
 		c := BV(s.t.S, v)
 		if ex.decide(Eq(s.t, c)) {
@@ -148,7 +162,7 @@ func (ex *Exec) concretize(s sym) int64 {
 			return int64(v)
 		}
 	}
-	panic(pathEnd{"budget", "concretization fan-out exceeded"})
+	panic(pathEnd{"budget", "concretization fan-out exceeded for " + s.t.String()})
 }
 
 // index checks 0 <= idx < n and returns a concrete index.
